@@ -44,6 +44,8 @@ def run(ctx):
         fs = ctx.facts(cfg)
         ctx.guard(name_first, ctx, cfg, fs)
         ctx.guard(first_name_only, ctx, cfg, fs)
+        import wiring
+        ctx.guard(wiring.builders, ctx, cfg, fs, 'N.name-first', r'^(command|params::<impl info::OptionParser<T>>::command|params::ParseCommand::<P>::(short|long|adjacent|help))$')
         ctx.guard(matched, ctx, cfg, fs)
         ctx.guard(keep_only, ctx, lambda: c07.table(ctx, cfg, fs), lambda o: 'depth=Less' in o.key or 'depth=Greater' in o.key, 'D.depth')
         ctx.guard(keep_only, ctx, lambda: c10.final(ctx, cfg, fs), lambda o: True, 'F.final')
